@@ -10,7 +10,8 @@ PROP = dict(
               "name_record_order_ignores_hash_order", "checked_name_records_are_canonical",
               "sorting_by_a_total_order_erases_arrival_order", "name_record_sort_is_an_ordered_permutation",
               "name_record_sort_idempotent", "table_directory_ignores_insertion_order",
-              "checked_table_directory_is_canonical"],
+              "checked_table_directory_is_canonical", "batch_interpolation_ignores_hash_order",
+              "incremental_interpolation_depends_on_order"],
     prelude="From Coq Require Import List ZArith NArith Bool.\nFrom FV.C01 Require Import Model.\nImport ListNotations.",
     harness_args=lambda tier, seed: ["--seed", str(seed), "--n", str(N[tier]), "--corpus", str(CORPUS[tier]),
                                      "--builds", str(BUILDS[tier])],
@@ -25,7 +26,11 @@ PROP = dict(
                   "development FV.C01.Det / SchedDet; hand-written timestamp model tied to head.created/modified",
                   "Rust harness /verif/harness (c01): child processes of the harness binary compile through fontc::generate_font; "
                   "its reader of the name table's record keys (sfnt.rs + 12-byte records) feeding name_order_ok"],
-    assumptions=["schedule_independence treats a job as atomic and as a function of the items it reads; that no conflicting "
+    assumptions=["batch_interpolation_ignores_hash_order: `interp` is a section variable standing for instantiate_instance (any "
+                 "function of the original source set and the location); the batch model itself is not evaluated against "
+                 "the code - that batch_interpolate_missing has this shape is read from fontir/src/glyph.rs, and its effect "
+                 "is exercised only by the differential builds of sparse-master sources",
+                 "schedule_independence treats a job as atomic and as a function of the items it reads; that no conflicting "
                  "job overlaps its execution is what C02's sched_safe establishes",
                  "hash seeds and thread timing are runtime behaviour the model cannot exhibit: they are exercised by the "
                  "differential builds only",
